@@ -16,7 +16,10 @@
 (***************************************************************************)
 EXTENDS SaslClient, Json, IOUtils
 
-Rec == ndJsonDeserialize(IOEnv.TRACE)
+\* TLC does not cache this definition (every use would parse the file again): TInit parses the file once
+\* into TLC register 1 and every other use reads the register.
+RecFile == ndJsonDeserialize(IOEnv.TRACE)
+Rec == TLCGet(1)
 VARIABLES l,
   cmds,      \* the complete lines of the stream as server commands, with their lengths
   outcome, ocap, oguid, delivered, expectedMsgs, hsLen, panicTxt, rel, eofSeen
@@ -34,6 +37,7 @@ RECURSIVE StartOf(_, _)
 StartOf(ms, i) == IF i = 1 THEN 0 ELSE StartOf(ms, i - 1) + Len(ms[i - 1])
 
 TInit ==
+  /\ TLCSet(1, RecFile)
   /\ l \in 1..Len(Rec)
   /\ LET r == Rec[l]
          lns == TakeLines(r.stream, 100000).lines
